@@ -36,10 +36,46 @@ def _custom_types():
     return CustomT, NoMod
 
 
+class Outer:
+    """class-nested types: __qualname__ = "Outer.Inner..." differs from __name__"""
+    class Inner:
+        pass
+
+    class Deep:
+        class Leaf:
+            pass
+
+
+def _local_types():
+    """types defined by `class` statements inside a function: __qualname__ contains "<locals>" """
+    import cincoconfig as cc
+    from cincoconfig.core import ConfigType
+    inner = cc.Schema()
+    inner.port = cc.IntField(default=1)
+
+    class Endpoint(ConfigType):      # function-local config type
+        __schema__ = inner
+
+    class Local:                     # function-local annotation / storage class
+        pass
+
+    class Holder:                    # function-local class with a nested class
+        class Item:
+            pass
+    inner2 = cc.Schema()
+    inner2.url = cc.StringField()
+
+    class NestedCT:
+        class Hook(ConfigType):      # config type nested in a (function-local) class
+            __schema__ = inner2
+    return {"Endpoint": Endpoint, "Local": Local, "LocalItem": Holder.Item, "Hook": NestedCT.Hook}
+
+
 def _field_builders():
     import cincoconfig as cc
     from cincoconfig.core import Field
     CustomT, NoMod = _custom_types()
+    LT = _local_types()
 
     def sub():
         s = cc.Schema()
@@ -71,20 +107,41 @@ def _field_builders():
         "virtual": lambda: cc.VirtualField(lambda c: 1), "virtual_rw": lambda: cc.VirtualField(lambda c: 2, lambda c, v: None),
         "st_str": lambda: with_st("asdf"), "st_empty": lambda: with_st(""), "st_custom": lambda: with_st(CustomT),
         "st_nomod": lambda: with_st(NoMod), "st_optional": lambda: with_st(__import__("typing").Optional[int]),
+        # types whose __qualname__ differs from __name__ (a config type class becomes a ConfigTypeField)
+        "local_ct": lambda: LT["Endpoint"], "nested_local_ct": lambda: LT["Hook"],
+        "st_local": lambda: with_st(LT["Local"]), "st_local_nested": lambda: with_st(LT["LocalItem"]),
+        "st_nested": lambda: with_st(Outer.Inner), "st_deep": lambda: with_st(Outer.Deep.Leaf),
+        "st_list_nested": lambda: with_st(__import__("typing").List[Outer.Inner]),
+        "st_dict_deep": lambda: with_st(__import__("typing").Dict[str, Outer.Deep.Leaf]),
+        # region of the open finding F52: a function-local class inside a typing construct
+        "list_local_ct": lambda: cc.ListField(LT["Endpoint"]), "list_nested_local_ct": lambda: cc.ListField(LT["Hook"]),
+        "dict_str_local": lambda: cc.DictField(cc.StringField(), with_st(LT["Local"])),
+        "st_optional_local": lambda: with_st(__import__("typing").Optional[LT["Local"]]),
     }
+
+
+FIELD_KINDS_F52 = ["list_local_ct", "list_nested_local_ct", "dict_str_local", "st_optional_local"]
+ANNS_F52 = ["Optional[Local]", "List[Endpoint]", "Dict[str, LocalItem]"]
+POOL_F52 = [
+    "def f(cfg, a: int, b: Optional[Local] = None): pass",
+    "def f(cfg, a) -> List[Endpoint]: pass",
+]
 
 
 FIELD_KINDS = ["int", "str", "float", "bool", "bytes", "field", "number_int", "number_float", "port", "ipv4", "ipv4net",
                "hostname", "filename", "url", "loglevel", "appmode", "include", "featureflag", "challenge", "secure",
                "list", "list_int", "list_str", "list_list_int", "list_dict", "list_sub", "list_ct", "list_challenge",
                "list_any", "dict", "dict_str_int", "dict_str", "dict_val_bool", "dict_str_listint", "dict_str_listsub",
-               "virtual", "virtual_rw", "st_str", "st_empty", "st_custom", "st_nomod", "st_optional"]
+               "virtual", "virtual_rw", "st_str", "st_empty", "st_custom", "st_nomod", "st_optional",
+               "local_ct", "nested_local_ct", "st_local", "st_local_nested", "st_nested", "st_deep", "st_list_nested",
+               "st_dict_deep"]
 
 
 def _method_ns():
     import typing
     from cincoconfig.core import Config
-    ns = {"typing": typing, "Config": Config}
+    ns = {"typing": typing, "Config": Config, "Outer": Outer}
+    ns.update(_local_types())
     for n in ("Optional", "List", "Dict", "Callable", "Tuple", "Union", "Sequence", "Literal", "Any", "Set", "Type"):
         ns[n] = getattr(typing, n)
     return ns
@@ -347,6 +404,7 @@ def impl(c):
         c["_exp_attrs"] = [k for k, f in schema._fields.items() if not isinstance(f, InstanceMethodField)]
         c["_exp_init"] = [k for k, f in schema._fields.items() if not isinstance(f, (InstanceMethodField, VirtualField))]
         c["_exp_methods"] = [(k, sig_of(f.method)) for k, f in schema._fields.items() if isinstance(f, InstanceMethodField)]
+        c["_f52"] = "<locals>" in repr(c["_desc"])
         c["_noself"] = [k for k, f in schema._fields.items() if isinstance(f, InstanceMethodField)
                         and not inspect.getfullargspec(f.method).args]
         cfg = None
@@ -447,6 +505,9 @@ def oracle(c, obs):
 
 
 def classify(c, msg):
+    # F52: a function-local class inside a typing construct is rendered through str() -> "<locals>"
+    if c.get("_f52") and (msg == "the generated stub is not valid Python" or msg == "model/implementation disagreement"):
+        return "F52"
     # F45: an instance method whose function has no plain leading positional parameter
     if c.get("_noself") and ("parameter names/kinds differ" in msg):
         k = msg.split()[1].rstrip(":")
@@ -485,6 +546,8 @@ def tags(c, obs):
     t.add("fields=%d" % min(len(c["fields"]) - nm, 4))
     if c.get("_noself"):
         t.add("F45-region")
+    if c.get("_f52"):
+        t.add("F52-region")
     return t
 
 
@@ -499,7 +562,10 @@ ANNS = ["int", "str", "float", "bool", "bytes", "None", "object", "typing.Any", 
         "Dict[str, int]", "list[int]", "int | None", "Callable[..., int]", "Callable[[int, str], bool]",
         "Tuple[int, str]", "Tuple[()]", "Union[int, str]", "'Foo'", "'a.b.C'", "Config", "Optional['Foo']",
         "typing.List[typing.Dict[str, typing.Optional[int]]]", "dict[str, list[int]]", "Sequence[int]",
-        "Literal['a', 'b']", "Set[int]", "Type[int]", "List", "''"]
+        "Literal['a', 'b']", "Set[int]", "Type[int]", "List", "''",
+        # classes whose __qualname__ differs from __name__: function-local, class-nested
+        "Local", "Endpoint", "LocalItem", "Hook", "Outer.Inner", "Outer.Deep.Leaf", "List[Outer.Inner]",
+        "Optional[Outer.Deep.Leaf]"]
 
 # hand-written pool: every parameter kind, annotated with builtins / typing constructs / not at all,
 # with and without a return annotation
@@ -548,6 +614,10 @@ POOL = [
     "def f(cfg, a: Config, b: Optional['Foo'] = None) -> Config: pass",
     "def f(cfg: 'Config', a: float, b: bool) -> float: pass",
     "def f(cfg, a: '') -> '': pass",
+    "def f(cfg, target: Endpoint, retries: int = 3) -> Local: pass",
+    "def f(cfg, a: Local, *, k: LocalItem = None) -> Hook: pass",
+    "def f(cfg, a: Outer.Inner, b: Outer.Deep.Leaf = None) -> Outer.Inner: pass",
+    "def f(cfg, a: List[Outer.Inner], *args, k: Dict[str, Outer.Deep.Leaf]) -> Optional[Outer.Inner]: pass",
 ]
 # region of the open finding F45: no plain leading positional parameter
 POOL_F45 = [
@@ -569,6 +639,8 @@ MKEYS = ["m0", "m1", "m2", "run", "say_hello", "get", "__call__", "update"]
 
 def rsig(rng, f45=False):
     def ann(p=0.5):
+        if rng.random() < 0.008:
+            return ": " + rng.choice(ANNS_F52)
         return (": " + rng.choice(ANNS)) if rng.random() < p else ""
     params = []
     if not f45:
@@ -613,6 +685,8 @@ def rfields(rng, depth=0, allow_methods=True):
             r = rng.random()
             if r < 0.03:
                 src = rng.choice(POOL_F45) if rng.random() < 0.5 else rsig(rng, f45=True)
+            elif r < 0.045:
+                src = rng.choice(POOL_F52)
             elif r < 0.35:
                 src = rng.choice(POOL)
             else:
@@ -626,6 +700,8 @@ def rfields(rng, depth=0, allow_methods=True):
                 fields.append([k, ["ct", rng.choice(["CT", "Item", "Endpoint"])]])
             elif r < 0.30:
                 fields.append([k, ["f", rng.choice(["virtual", "virtual_rw"])]])
+            elif r < 0.31:
+                fields.append([k, ["f", rng.choice(FIELD_KINDS_F52)]])
             else:
                 fields.append([k, ["f", rng.choice(FIELD_KINDS)]])
     return fields
@@ -646,8 +722,10 @@ def generate(rng, tier):
     cases.append(case([["ct", ["ct", "CT"]]]))
     for src in POOL:                                           # every pool signature alone
         cases.append(case([["m", ["method", src]]]))
-    for src in POOL_F45:
+    for src in POOL_F45 + POOL_F52:
         cases.append(case([["m", ["method", src]]]))
+    for kind in FIELD_KINDS_F52:
+        cases.append(case([["a", ["f", "int"]], ["x", ["f", kind]]]))
     for src, dom in POOL_OUT:
         cases.append(case([["m", ["method", src]]], domain=dom))
     # order of virtual / persistent / method fields
